@@ -941,4 +941,127 @@ theorem adjust_aux_full {cfg : Cfg} (d : Disp (FullSt cfg)) (hp : d.pendingAux =
   | ok f => exact ⟨a1, rfl, rfl, rfl, rfl⟩
   | error e => exact ⟨a1, rfl, rfl, rfl⟩
 
+theorem rBase_notSiteC : Chunk.R.NotSiteC rBase := ⟨by decide, by decide, by decide, by decide⟩
+
+/-- **(`handle_tag`, `auxPend`)**: the closing chunk of an open text node, the aux-info continuation with the lexeme's
+attributes, then the start-tag token iff the continuation's flags ask for it -/
+theorem tag_auxPend (cfg : Cfg) : Y_auxPend_tag cfg := by
+  intro d s ln ns hJ ha hc hg hp input lx hv hst
+  have hstart : ∃ name h ns' as sc, lx.outline = .startTag name h ns' as sc := by
+    rcases isStart_cases lx.outline with ⟨_, x⟩ | ⟨h1, _⟩
+    · exact x
+    · rw [hst] at h1; cases h1
+  obtain ⟨name, h, ns', as, sc, ho⟩ := hstart
+  have hV := lexV_of_argsOK hv name h ns' as sc ho
+  have hmf : (startTag s ln ns).1.fault = none := by rw [Chunk.R.startTag_fault]; exact hJ.1.fault
+  unfold Disp.handleTag
+  obtain ⟨tokF, ⟨tt, p, htokF⟩, f1, f2, f3, f4⟩ := flushPendingText_full d
+  have hkF : (CtlEv.other tokF).WellKinded := by rw [htokF]; trivial
+  obtain ⟨o1, o2⟩ := eqT_other cfg (startTag s ln ns).1 hmf d.ctl.1 tokF d.textPending hc hkF
+  cases h0 : (tokIf cfg d.textPending d.ctl.1 tokF).2 with
+  | some e =>
+    rw [h0] at f4
+    rw [DRes.bind_err _ _ e f4]
+    exact postT_err _ e (Or.inl (o2 e h0))
+  | none =>
+    rw [h0] at f4
+    rw [DRes.bind_ok _ _ () f4]
+    have hc1 : EqT (startTag s ln ns).1 (d.flushPendingText (fullCtl cfg)).1.ctl.1 := by rw [f1]; exact o1 h0
+    have hg1 : (d.flushPendingText (fullCtl cfg)).1.gotFlagsFromHint = false := by rw [f3.gf]; exact hg
+    have hp1 : (d.flushPendingText (fullCtl cfg)).1.pendingAux = true := by rw [f3.pa]; exact hp
+    generalize (d.flushPendingText (fullCtl cfg)).1 = d1 at hc1 hg1 hp1 ⊢
+    rw [if_neg (by rw [hg1]; simp)]
+    obtain ⟨a1, a2, a3, a4⟩ := adjust_aux_full d1 hp1 input lx name h ns' as sc ho
+    obtain ⟨x1, x2⟩ := auxInfo_congr hc1 ⟨input, as, sc⟩
+    have hsp : startPhase s ln ns ⟨input, as, sc⟩ = auxInfo (startTag s ln ns).1 ⟨input, as, sc⟩ := by
+      simp only [startPhase, ha]
+    have hm2f : (auxInfo (startTag s ln ns).1 ⟨input, as, sc⟩).1.fault = none := by
+      rw [Chunk.R.auxInfo_fault]; exact hmf
+    rw [x1] at a4
+    cases hax : (auxInfo (startTag s ln ns).1 ⟨input, as, sc⟩).2 with
+    | error e =>
+      rw [hax] at a4
+      rw [DRes.bind_err _ _ e a4]
+      obtain ⟨_, c2⟩ := (J2_evInvV cfg).start s ln ns ⟨input, as, sc⟩ [] [] ns' sc [] ⟨0, 0⟩ 0 hJ hV.1
+      have hce : (ctlStep cfg s (.start ln ns ⟨input, as, sc⟩ (.startTag [] [] ns' sc [] ⟨0, 0⟩ 0))).2 = some e := by
+        simp only [ctlStep, hsp, hax]
+      rcases c2 e hce with hh | hh | hh
+      · exact postT_err _ e (Or.inl hh)
+      · exact hh.elim
+      · subst hh
+        exact (Chunk.R.auxInfo_nb rBase_notSiteC _ _ hax).elim
+    | ok f' =>
+      rw [hax] at a4
+      obtain ⟨a4, a5⟩ := a4
+      rw [DRes.bind_ok _ _ () a4]
+      have hc2 : EqT (auxInfo (startTag s ln ns).1 ⟨input, as, sc⟩).1 (d1.adjustFlagsForTag (fullCtl cfg) input lx).1.ctl.1 := by
+        rw [a1]; exact x2
+      have hi2 : Idle (d1.adjustFlagsForTag (fullCtl cfg) input lx).1 := ⟨a2, by rw [a3]; exact hg1⟩
+      generalize (d1.adjustFlagsForTag (fullCtl cfg) input lx).1 = d2 at hc2 hi2 a5 ⊢
+      obtain ⟨r1, r2, r3⟩ := resumeEmission_same d2 lx
+      have hc3 : EqT (auxInfo (startTag s ln ns).1 ⟨input, as, sc⟩).1 (d2.resumeEmission (fullCtl cfg) lx).ctl.1 := by
+        rw [r1]; exact hc2
+      have hi3 : Idle (d2.resumeEmission (fullCtl cfg) lx) := r3.idle hi2
+      have hf3 : (d2.resumeEmission (fullCtl cfg) lx).flags = f' := by rw [r2]; exact a5
+      generalize d2.resumeEmission (fullCtl cfg) lx = d3 at hc3 hi3 hf3 ⊢
+      obtain ⟨p1, p2⟩ := produceTag_start_fullV d3 input lx name h ns' as sc ho
+      cases hb1 : f'.nextStartTag with
+      | false =>
+        obtain ⟨q1, q2, q3⟩ := p1 (by rw [hf3]; exact hb1)
+        rw [DRes.bind_ok _ _ () q1]
+        obtain ⟨c1, _⟩ := (J2_evInvV cfg).start s ln ns ⟨input, as, sc⟩ [] [] ns' sc [] ⟨0, 0⟩ 0 hJ hV.1
+        have hce : ctlStep cfg s (.start ln ns ⟨input, as, sc⟩ (.startTag [] [] ns' sc [] ⟨0, 0⟩ 0)) =
+            ((auxInfo (startTag s ln ns).1 ⟨input, as, sc⟩).1, none) := by
+          simp only [ctlStep, hsp, hax, tokIf, hb1, Bool.false_eq_true, if_false]
+        have hJm : J2 cfg (auxInfo (startTag s ln ns).1 ⟨input, as, sc⟩).1 := by
+          have := c1 (by rw [hce])
+          rw [hce] at this
+          exact this
+        have hJ3 : J2 cfg (d3.produceTag (fullCtl cfg) input lx).1.ctl.1 := by
+          rw [q2]; exact J2_congr hc3 hJm
+        exact ⟨fun _ _ => ⟨q3.idle hi3, hJ3⟩, fun e he => by cases he⟩
+      | true =>
+        rcases p2 (by rw [hf3]; exact hb1) with ⟨e, he, hq⟩ | ⟨n, attrs, raw, hat, hcs, q1, q2, q3⟩
+        · rw [DRes.bind_err _ _ e hq]
+          exact postT_err _ e (Or.inr he)
+        · have hf3' : d3.ctl.1.fault = none := by rw [hc3.fault]; exact hm2f
+          have htok : ∀ m : St, m.fault = none →
+              token cfg m (.startTag n attrs ns' sc raw (srcOf lx.prevConsumed lx.raw) lx.prevConsumed) =
+              tokStartTag cfg m n attrs ns' sc raw (srcOf lx.prevConsumed lx.raw) lx.prevConsumed := by
+            intro m hm; unfold token; simp only [hm]
+          rw [htok _ hf3'] at q1 q3
+          obtain ⟨ce, cs⟩ := tokStartTag_congr cfg (auxInfo (startTag s ln ns).1 ⟨input, as, sc⟩).1 d3.ctl.1 hc3 n attrs ns' sc raw
+            (srcOf lx.prevConsumed lx.raw) lx.prevConsumed
+          obtain ⟨c1, c2⟩ := (J2_evInvV cfg).start s ln ns ⟨input, as, sc⟩ n attrs ns' sc raw (srcOf lx.prevConsumed lx.raw)
+            lx.prevConsumed hJ (hV.2 n attrs raw hat hcs)
+          have hce : ctlStep cfg s (.start ln ns ⟨input, as, sc⟩
+                (.startTag n attrs ns' sc raw (srcOf lx.prevConsumed lx.raw) lx.prevConsumed)) =
+              ((tokStartTag cfg (auxInfo (startTag s ln ns).1 ⟨input, as, sc⟩).1 n attrs ns' sc raw (srcOf lx.prevConsumed lx.raw) lx.prevConsumed).1,
+               (tokStartTag cfg (auxInfo (startTag s ln ns).1 ⟨input, as, sc⟩).1 n attrs ns' sc raw (srcOf lx.prevConsumed lx.raw) lx.prevConsumed).2.err) := by
+            simp only [ctlStep, hsp, hax, tokIf, hb1, if_true, htok _ hm2f]
+          cases hte : (tokStartTag cfg (auxInfo (startTag s ln ns).1 ⟨input, as, sc⟩).1 n attrs ns' sc raw (srcOf lx.prevConsumed lx.raw) lx.prevConsumed).2.err with
+          | some e =>
+            rw [ce, hte] at q3
+            rw [DRes.bind_err _ _ e q3]
+            rcases c2 e (by rw [hce, hte]) with hh | hh | hh
+            · exact postT_err _ e (Or.inl hh)
+            · exact hh.elim
+            · subst hh
+              exact (tokStartTag_not_rBase cfg _ n attrs ns' sc raw _ _ (by simp [srcOf]) hte).elim
+          | none =>
+            rw [ce, hte] at q3
+            rw [DRes.bind_ok _ _ () q3]
+            have hJb : J2 cfg (tokStartTag cfg (auxInfo (startTag s ln ns).1 ⟨input, as, sc⟩).1 n attrs ns' sc raw (srcOf lx.prevConsumed lx.raw) lx.prevConsumed).1 := by
+              have := c1 (by rw [hce, hte])
+              rw [hce] at this
+              exact this
+            have hJ4 : J2 cfg (d3.produceTag (fullCtl cfg) input lx).1.ctl.1 := by
+              rw [q1]; exact J2_congr cs hJb
+            exact ⟨fun _ _ => ⟨q2.idle hi3, hJ4⟩, fun e he => by cases he⟩
+
+/-- **Full_scan_opsX.** The operation-level statement with all four operations guarded holds for the inductive invariant
+`InvY` — every (operation, protocol state) pair is closed. -/
+theorem Full_scan_opsX : Full_scan_opsX_statement InvY :=
+  Full_scan_opsX_of tag_startLex tag_auxPend
+
 end LolHtml.Thm.Full
